@@ -135,6 +135,11 @@ class MathSimplification:
             for blit in newbody:
                 allvars.update(set(collect_ast(blit, "Variable")))
             needed.update((global_vars_inside_body(stm.body) - global_vars_inside_body(newbody)) & allvars)
+            # a global variable used inside the elements of an aggregate that is handed to sympy is needed as well
+            for blit in gb.equalities:
+                for agg in collect_ast(blit, "BodyAggregate"):
+                    for elem in agg.elements:
+                        needed.update(set(collect_ast(elem, "Variable")) & global_vars_inside_body(stm.body))
             try:
                 new_conditions = gb.simplify_equalities(needed, unbound)
                 for cond in new_conditions:
